@@ -59,6 +59,8 @@ def count_tokens(norm):
                 i += 1
             n += 1
         elif ch.isalnum() or ch == "_":
+            if s.startswith("r#", i) and i + 2 < len(s) and (s[i + 2].isalpha() or s[i + 2] == "_"):
+                i += 2      # a raw identifier is one token
             while i < len(s) and (s[i].isalnum() or s[i] == "_"):
                 i += 1
             n += 1
@@ -178,7 +180,7 @@ def run(chk, tier, seed, replay):
                 chk.deviation(key, f"a well-formed argument list is rejected: {o.get('msg')}", case={"tokens": c["tokens"], "text": c["_text"]},
                               expected="parsed", observed=o, tags={"kind": "attr_rejected", "kd": list(c.get("kds", []))})
             continue
-        want = [(bool(a["alias"]), a["form"] == "ident") for a in c["args"]]
+        want = [(bool(a["alias"]), a["form"] in ("ident", "rawident")) for a in c["args"]]
         got = [(x["alias"] is not None, bool(x["ident"])) for x in o["args"]]
         if len(got) != len(want):
             continue          # a different split: the subject of (a) above (and of the recorded finding KD2)
@@ -317,7 +319,7 @@ def trace_validate(chk, tier, seed):
             if j:
                 toks.append(",")
             toks += t
-            truth.append({"from": pos, "to": pos + len(t) - 1, "ident": t == ["x"]})
+            truth.append({"from": pos, "to": pos + len(t) - 1, "ident": t in (["x"], ["r#type"])})
             pos += len(t) + 1
             used |= u
         if rnd.random() < 0.2:
